@@ -1235,7 +1235,17 @@ func (g *Gen) opRefBurst(conns []*Client) {
 	if rapid.IntRange(0, 5).Draw(g.t, "rbsoft") == 0 {
 		ref = Soft(target)
 	}
-	if v.Type == 'm' {
+	target2 := ""
+	if v.Type == 'm' && rapid.IntRange(0, 2).Draw(g.t, "rbtwo") == 0 {
+		// one change event that introduces two references at once: both are handed
+		// over by it, and both go on receiving their events
+		target2 = g.sample("rbtarget2", g.names)
+		ref2 := Ref(target2)
+		keys := []string{"a", "r", "s"}
+		k1 := rapid.IntRange(0, 2).Draw(g.t, "rbk1")
+		k2 := (k1 + 1 + rapid.IntRange(0, 1).Draw(g.t, "rbk2")) % 3
+		g.w.Exec(Op{K: "mutm", S: holder, Par: []Op{{Key: keys[k1], Val: &ref}, {Key: keys[k2], Val: &ref2}}})
+	} else if v.Type == 'm' {
 		g.w.Exec(Op{K: "mut", S: holder, O: "set", Key: g.sample("key", []string{"a", "r", "s"}), Val: &ref})
 	} else {
 		g.w.Exec(Op{K: "mut", S: holder, O: "add", N: rapid.IntRange(0, len(v.Coll)).Draw(g.t, "idx"), Val: &ref})
@@ -1247,6 +1257,9 @@ func (g *Gen) opRefBurst(conns []*Client) {
 		on := holder
 		if rapid.Bool().Draw(g.t, "rbontarget") {
 			on = target
+			if target2 != "" && rapid.Bool().Draw(g.t, "rbontarget2") {
+				on = target2
+			}
 		}
 		if rapid.Bool().Draw(g.t, "rbmut") {
 			g.mutate("mut", on, "")
